@@ -70,6 +70,10 @@ def r3(ctx, rule, align_name):
     ctx.touch(fn)
     ws = stream_writes(pdb, fn, align_name)
     ctx.floor(rule, len(ws), 12)
+    heads = {h for h, body in fn.loops().items() for w in ws if w[4].block.id in body}
+    if len(heads) != 1:
+        raise AnalysisBroken("align_byte_sequence: the segments are no longer written by one loop over both lists (%d loops write to the stream): "
+                             "the order rule (signature segment, then its path segment, per round) is written for that loop" % len(heads))
 
     def desc(w):
         region, what, ln, conv, c = w
@@ -169,6 +173,31 @@ def r3(ctx, rule, align_name):
                 pstart = vf.expr(fn, v)
     ctx.check(pstart == ("load", ("fld", ("arg", 0), "rtr_bgpsec.path")), rule, "first-path-segment", "%s:%d" % (fn.relfile, fn.line),
               "path walk starts at %s" % (vf.show(pstart) if pstart else "?"), key="%s:path-start" % rule)
+
+
+def validation_shape(pdb):
+    """the rules on the validation loop (what is hashed per hop, which key, when VALID may be returned) are written for the loop that
+    advances a byte offset by 'next signature's length + 28' per hop; another way of walking the stream is not recognised by matching"""
+    f = pdb.fn(VP)
+
+    def flat(e):
+        if e[0] == "c":
+            return e[1], []
+        if e[0] == "bin" and e[1] == "add":
+            a, x = flat(e[2])
+            b, y = flat(e[3])
+            return a + b, x + y
+        return 0, [e]
+    for i in f.all_insts():
+        if i.op == "add":
+            kk, tt = flat(vf.expr(f, i.ref))
+            if kk == SKI + 2 + PATHSEG and len(tt) == 1 and tt[0][0] == "phi":
+                return
+            if kk == SKI + 2 + PATHSEG and len(tt) == 1 and tt[0][0] == "load" and vf.last_field(tt[0][1]) == "rtr_signature_seg.sig_len" and \
+                    vf.root_of(tt[0][1])[0] == "phi" and not f.calls("sig_seg_size"):
+                return      # same loop, the length read from a segment directly
+    raise AnalysisBroken("%s: the per-hop advance 'offset += <signature length> + 28' was not found - the validation loop was rewritten; "
+                         "the rules on it cannot be carried over by matching" % VP)
 
 
 def r4(ctx, rule):
@@ -307,7 +336,9 @@ def r2_r6(ctx, retsets):
                 return [([], {inst.ref: ("nin", frozenset([0]))})]
         return None
     ALG = ("fld", ("arg", 0), "rtr_bgpsec.alg")
-    outs, fl = es.count_effects(fn, pdb, classify, retsets, init=[("hv", "-")], cell={ALG: 1}, cap=160)
+    # the argument checks at the top (decided by C11.R5) have passed: there is at least one signature segment
+    SIGS = ("fld", ("arg", 0), "rtr_bgpsec.sigs")
+    outs, fl = es.count_effects(fn, pdb, classify, retsets, init=[("hv", "-")], cell={ALG: 1, SIGS: ("nin", frozenset([0]))}, cap=160)
     if not outs:
         raise AnalysisBroken("no return state of %s" % VP)
     bad = [o for o in outs if flow.av_single(o["ret"]) == VALID and o["counts"].get("hv") != "valid"]
@@ -354,10 +385,10 @@ def r2_r6(ctx, retsets):
             if inst.op == "call" and inst.callee == "load_public_key":
                 return [([], {inst.ref: flow.av_in(OK)})]
             if inst.op == "call" and inst.callee == "ECDSA_verify":
-                return [([], {inst.ref: flow.av_in(status)})]
+                return [(["=verified:1"], {inst.ref: flow.av_in(status)})]
             return None
         o3, f3 = es.count_effects(vs, pdb, cl, retsets)
-        rets = {flow.av_single(o["ret"]) for o in o3}
+        rets = {flow.av_single(o["ret"]) for o in o3 if o["counts"].get("verified") == "1"}    # what the verification's outcome is turned into
         ctx.check(rets == {want}, "C11.R6", "verdict[ECDSA_verify=%d]" % status, "%s:%d" % (vs.relfile, vs.line), "returns %s (expected %d)" % (sorted(rets, key=str), want),
                   key="C11.R6:verdict:%d" % status)
 
@@ -442,6 +473,18 @@ def no_static_state(ctx, rule):
                     g = pdb.glob_in(f.unit, r[1])
                     if g is not None and not g.get("const") and not pdb.has_fn(r[1]):
                         bad.append((i, r[1]))
+    if bad:
+        # a static object that is only touched while a mutex is held is a deliberate shared structure (a cache, a memo): whether it is
+        # transparent - same verdicts as without it - is a question about its contents over the history of calls, which these rules do
+        # not decide.  Unprotected static state is the hazard the rule is about and stays a violation.
+        def guarded(i):
+            f = i.fn
+            if i.op == "call" and (i.callee or "").startswith("pthread_mutex_"):
+                return True
+            return any(c.callee == "pthread_mutex_lock" and f.dom(c, i) for c in f.calls("pthread_mutex_lock"))
+        if all(guarded(i) for i, name in bad):
+            raise AnalysisBroken("the BGPsec code now keeps a mutex-protected static object (%s, used in %s): whether such a cache leaves every "
+                                 "verdict as it was is not decided by these rules" % (bad[0][1], bad[0][0].fn.name))
     ctx.check(not bad, rule, "bgpsec:no-mutable-static-state", (bad[0][0].loc() if bad else "rtrlib/bgpsec"),
               ("mutable global/static %s is used in %s: the outcome of a call depends on earlier calls" % (bad[0][1], bad[0][0].fn.name)) if bad else
               "%d functions of the BGPsec units touch no mutable global or static object" % n, key="%s:static-state" % rule)
@@ -527,6 +570,7 @@ def counts_follow_lists(ctx, rule):
 def check(ctx):
     pdb = ctx.pdb
     retsets = flow.return_sets(pdb)
+    validation_shape(pdb)
     r1(ctx)
     r2_r6(ctx, retsets)
     r3(ctx, "C11.R3", "VALIDATION")
